@@ -30,7 +30,7 @@ def main():
           for p in ALL if p not in props.PROPS]
     m = dict(
         version=1,
-        setup_cmd="python3 tools/vbuild.py asan plain tsan",
+        setup_cmd="python3 tools/setup.py",
         hooks=dict(guard="LCDB_VERIF", enable="tools/vbuild.py compiles /repo/src/*.c with -DLCDB_VERIF plus the 12 -Dpthread_*=vf_* renames (no cmake)",
                    baseline_off_cmd="cmake -G Ninja -B /repo/_build -S /repo && cmake --build /repo/_build && ctest --test-dir /repo/_build -j8 --timeout 900",
                    source_commits=props.HOOK_COMMITS, add_only=True),
